@@ -251,11 +251,11 @@ def checkC18 (p : PProject) (impl : Json) : PropOut := Id.run do
   let dup := (jnat impl "dupEntityBlocks").toOption.getD 0
   if dup > 0 then fails := fails ++ [s!"C18-F1:entity-block-repeated-in-error-text:{dup}"]
   -- codes and severities: those of the validator model (shared with C10)
-  let md := modelDiags p
+  let md := (modelDiags p).map fun ds => dedupConflicts (ds ++ conflictDiags p)
   let mview : Json := match md with
     | some ds => Json.arr (sortDiags ds).toArray
     | none => Json.str "hard-error"
-  let iview : Json := if jstrD impl "validateErr" ≠ "" then Json.str "hard-error" else Json.arr (sortDiags (implDiags impl)).toArray
+  let iview : Json := if jstrD impl "validateErr" ≠ "" then Json.str "hard-error" else Json.arr (sortDiags (dedupConflicts (implDiags impl))).toArray
   return { model := mview, implView := iview, implFails := fails, nontrivial := !diags.isEmpty,
            notes := [s!"d:diagnostics={diags.length}", s!"d:value-diagnostics={nValue}"] }
 
